@@ -27,10 +27,14 @@
   under EVERY layout: any white space, line breaks and comment lines in front of, between and
   behind the values, any white space between the parts of a string and between the bytes of a
   blob.  No bound on the number of values, parts, gaps or characters; induction over the token list.
+  Also proved (`Ranged`, `…_ranges_partial`): ranges `b ... c` of decimal 'i' integers anywhere at top
+  level of such a sentence, standing first or behind a scalar value, `nx<scalar>` or another such
+  range: `a b ... c` with the step `b - a`, the step ±1 behind values of other types.
   Not proved, covered by the correspondence check and the oracle only: octal spellings, hex with
   a suffix or for 'h',
   floats and doubles in every notation, upper-case colours, other blanks inside MIDI,
-  `b ... c` ranges (integer and float) at top level and in arrays, arrays with an open end; and
+  `b ... c` ranges of c / h / f / d or in other spellings, ranges directly behind an array, ranges
+  inside arrays, arrays with an open end; and
   `print_scan_fixpoint` for arrays and for values the printer compresses (`nxA`, five equal-typed
   values in a row).
   Known finding C11-K1 (`scan_denotes_counterexample`): an unsuffixed octal literal is read as
@@ -38,6 +42,7 @@
 -/
 import RtoscModel.Proofs.ScanPrint
 import RtoscModel.Proofs.ScanRange
+import RtoscModel.Proofs.ScanRangeSpec
 namespace Rtosc.Pretty.C11
 open Rtosc Rtosc.Libc Rtosc.Pretty
 open Rtosc.ArgVal (Cell Item flatList expandList)
@@ -254,9 +259,9 @@ theorem reads_range_first (x z : Int) (hx1 : -2147483648 ≤ x) (hx2 : x ≤ 214
 /-- **checker_scanner_agree / scan_denotes for a leading integer range** (partial): the sentence
     `b ... c v₁ v₂ …` (b ≠ c decimal 'i' integers with `|c - b| + 1 < 2³¹` values, `vᵢ` `Proved`)
     denotes `|c - b| + 1` values from `b` in steps of ±1, and the checker counts and the scanner writes
-    exactly the cells of that denotation, consuming the whole text.  Ranges with a left neighbour
-    (`a b ... c`), ranges inside arrays, of other types or spellings, and open-ended arrays are NOT
-    proved (correspondence and oracle only). -/
+    exactly the cells of that denotation, consuming the whole text.  (Ranges with a left neighbour:
+    `checker_scanner_agree_ranges_partial` below; ranges inside arrays, of other types or spellings,
+    and open-ended arrays are NOT proved: correspondence and oracle only.) -/
 theorem range_first_partial (x z : Int) (hx1 : -2147483648 ≤ x) (hx2 : x ≤ 2147483647)
     (hz1 : -2147483648 ≤ z) (hz2 : z ≤ 2147483647) (hxz : x ≠ z) (hwid : (z - x).natAbs ≤ 2147483646)
     (s' : Sentence) (L : Layout) (hL : L.spaced) (hb : L.blank [0, 1] ≠ []) (hp : provedFrom L 1 s') :
@@ -484,6 +489,164 @@ example : ∃ cs, cells (rangeFirst 10 2 [.val (.str false [[.raw 115]]), .arr [
         by decide +kernel, by decide +kernel⟩)
   simpa using this
 
+/-! ### ranges anywhere at top level -/
+
+/-- the sentences for which the first three clauses are proved in addition to `Proved`: every value
+    has proved agreement (`SVal.proved`: scalars in proved spellings, arrays, `nxA`) or is a range
+    `b ... c` of two 'i' integers in plain decimal spelling with at least one white-space character in
+    front of the dots, that stands first in the sentence or behind a scalar value, a repetition
+    `nx<scalar>` or another such range (`rangedFrom`), and satisfies `RangeOK`: the step — `b - a`
+    if the value `a` to the left is an 'i' integer different from `b` (for a range to the left: its
+    right end), else ±1 — is an `int32_t` that reaches `c` from `b` in 1 … 2³¹-2 steps, and the width
+    `c - b` is an `int32_t` -/
+def Ranged (s : Sentence) (L : Layout) : Prop := L.spaced ∧ rangedFrom L 0 (some none) s
+
+/-- every `Proved` sentence is `Ranged` -/
+theorem Proved.ranged {s : Sentence} {L : Layout} (h : Proved s L) : Ranged s L := by
+  refine ⟨h.1, ?_⟩
+  have key : ∀ (s : Sentence) (i : Nat) (o : Option (Option Int)), provedFrom L i s → rangedFrom L i o s := by
+    intro s
+    induction s with
+    | nil => intro i o _; trivial
+    | cons v r ih =>
+      intro i o hp
+      obtain ⟨hv, hr⟩ := hp
+      unfold rangedFrom
+      have : v.iRange = none := by
+        cases v with
+        | range _ _ => simp [SVal.proved] at hv
+        | _ => rfl
+      rw [this]
+      exact ⟨hv, ih (i + 1) _ hr⟩
+  exact key s 0 _ h.2
+
+/-- a `Ranged` sentence is read as its cells, under every layout in which no comment follows a
+    value directly -/
+theorem reads_ranged (s : Sentence) (L : Layout) (h : Ranged s L) : Reads (render s L) (rcells (some none) s) := by
+  by_cases hs : s = []
+  · subst hs
+    have := reads_proved [] L ⟨h.1, trivial⟩
+    simpa [rcells, pCells, pcellsList] using this
+  · have hlay := layR_ranged L h.1.1 (trailBytes L.trail L.last) (tail_trail L.trail L.last h.1.2) s 0 .first (some none) hs
+      ⟨by simp, rfl⟩ h.2
+    have hcells := allCells_rArgs L s 0 (some none)
+    have hr : render s L = gapsBytes L.lead ++ (valuesText L 0 s ++ trailBytes L.trail L.last) := by
+      simp [render]
+    rw [hr]
+    refine ⟨?_, ?_⟩
+    · have := countPrintedArgVals_layR L.lead hlay
+      rwa [hcells] at this
+    · have := scanArgVals_layR L.lead hlay
+      rwa [hcells] at this
+
+/-- **checker_scanner_agree** (ranges with a left neighbour, proved part): for every `Ranged`
+    sentence of any length — `a b ... c` with the step taken from `a` and `b`, ranges behind
+    ranges, behind values of other types, behind `nx<scalar>`, anywhere among values with proved
+    agreement — the checker counts exactly the cells the scanner writes and the scanner consumes the
+    whole text. -/
+theorem checker_scanner_agree_ranges_partial (s : Sentence) (L : Layout) (h : Ranged s L) :
+    ∃ (n : Nat) (cs : List Cell),
+      C11.countPrintedArgVals (render s L) = .ok (n : Int) ∧
+      C11.scanArgVals (render s L) n = .ok ((render s L).length, cs) ∧ cs.length = n :=
+  ⟨_, _, (reads_ranged s L h).count, (reads_ranged s L h).scan, rfl⟩
+
+/-- **scan_denotes** (ranges with a left neighbour, proved part): the scanned values of a `Ranged`
+    sentence are the values its spelling denotes: for `a b ... c` the range header with the count
+    `(c - b) / (b - a) + 1`, the step `b - a` and the start `b`. -/
+theorem scan_denotes_ranges_partial (s : Sentence) (L : Layout) (cs : List Cell) (h : Ranged s L)
+    (hc : cells s = some cs) : Reads (render s L) cs := by
+  rw [cells_ranged L s h.2] at hc
+  cases hc
+  exact reads_ranged s L h
+
+/-- **whitespace_comment_invariance** (ranges with a left neighbour, proved part): two layouts of
+    one `Ranged` sentence are both accepted and scan to the same values. -/
+theorem whitespace_comment_invariance_ranges_partial (s : Sentence) (L₁ L₂ : Layout)
+    (h₁ : Ranged s L₁) (h₂ : Ranged s L₂) :
+    ∃ cs, Reads (render s L₁) cs ∧ Reads (render s L₂) cs :=
+  ⟨_, reads_ranged s L₁ h₁, reads_ranged s L₂ h₂⟩
+
+/-- `10 8 ... 2 "s" 7 ... 9 12 ... 18 2x5 6 ... 9 [1 2] 'c' 1 ... 2`: a step from the left neighbour
+    (-2), a string to the left (+1), a range to the left (its end 9 gives the step 3), a repeated
+    value to the left (5: step 6 - 5 = 1), a character to the left -/
+def exRanged : Sentence :=
+  [.val (.int 10 .dec false), .range (.int 8 .dec false) (.int 2 .dec false),
+   .val (.str false [[.raw 115]]), .range (.int 7 .dec false) (.int 9 .dec false),
+   .range (.int 12 .dec false) (.int 18 .dec false),
+   .rep 2 (.val (.int 5 .dec false)), .range (.int 6 .dec false) (.int 9 .dec false),
+   .arr [.val (.int 1 .dec false), .val (.int 2 .dec false)] false,
+   .val (.chr 99 false), .range (.int 1 .dec false) (.int 2 .dec false)]
+
+/-- the messy layout with a blank (and a line break) in front of the dots of every range -/
+def exLayoutRanged : Layout :=
+  { exLayout with blank := fun p => if p.getD 1 0 = 1 ∧ p.length = 2 then [.sp, .nl] else [] }
+
+/-- `RangeOK` as a Boolean (for concrete instances) -/
+def rangeOKb (nb : Option Int) (x z : Int) : Bool :=
+  decide (-2147483648 ≤ x) && decide (x ≤ 2147483647) && decide (-2147483648 ≤ z) && decide (z ≤ 2147483647) &&
+  decide (-2147483648 ≤ rangeStepI nb x z) && decide (rangeStepI nb x z ≤ 2147483647) &&
+  decide ((z - x) % rangeStepI nb x z = 0) && decide (1 ≤ (z - x) / rangeStepI nb x z) &&
+  decide ((z - x) / rangeStepI nb x z < 2147483647) && decide (-2147483647 ≤ z - x) && decide (z - x ≤ 2147483647)
+
+theorem rangeOK_of_b (nb : Option Int) (x z : Int) (h : rangeOKb nb x z = true) : RangeOK nb x z := by
+  simp only [rangeOKb, Bool.and_eq_true, decide_eq_true_eq] at h
+  obtain ⟨⟨⟨⟨⟨⟨⟨⟨⟨⟨a, b⟩, c⟩, d⟩, e⟩, f⟩, g⟩, i⟩, j⟩, k⟩, l⟩ := h
+  exact ⟨a, b, c, d, e, f, g, i, j, k, l⟩
+
+theorem exRanged_ranged : Ranged exRanged exLayoutRanged := by
+  refine ⟨⟨exLayout_spaced.1, exLayout_spaced.2⟩, ?_⟩
+  unfold exRanged
+  simp only [rangedFrom, SVal.iRange, SVal.offer, SVal.proved, provedElems, SVal.repeatable, Tok.cell, nbInt,
+    and_true, true_and]
+  refine ⟨?_, ⟨_, rfl, ?_⟩, ?_, ?_, ⟨_, rfl, ?_⟩, ?_, ⟨_, rfl, ?_⟩, ?_, ?_, ⟨_, rfl, ?_⟩, ?_, ?_, ?_, ⟨_, rfl, ?_⟩, ?_⟩
+  all_goals first | exact rangeOK_of_b _ _ _ (by decide +kernel) | decide +kernel
+
+example : String.ofList ((render exRanged { L0 with blank := exLayoutRanged.blank }).map (fun b => Char.ofNat b.toNat)) =
+    "10 8 \n...2 \"s\" 7 \n...9 12 \n...18 2x5 6 \n...9 [1 2] 'c' 1 \n...2" := by decide +kernel
+
+/-- non-vacuity: the example is `Ranged`, its cells are what the specification says, and they are read -/
+example : cells exRanged = some
+    [.int .i 10, .rep 4 1, .int .i (-2), .int .i 8, .str .s (some [115]), .rep 3 1, .int .i 1, .int .i 7,
+     .rep 3 1, .int .i 3, .int .i 12, .rep 2 0, .int .i 5, .rep 4 1, .int .i 1, .int .i 6,
+     .arr 105 2, .int .i 1, .int .i 2, .int .c 99, .rep 2 1, .int .i 1, .int .i 1] ∧
+    ∃ cs, cells exRanged = some cs ∧ Reads (render exRanged exLayoutRanged) cs := by
+  refine ⟨by decide +kernel, _, cells_ranged _ _ exRanged_ranged.2, reads_ranged _ _ exRanged_ranged⟩
+
+/-! ### two findings on the way (hypotheses the `Ranged` class needs)
+
+  * `RangeOK.hw1/hw2`: the width `c - b` must be an `int32_t`.  The specification (`stepsOf`) only
+    bounds the number of steps; `a b ... c` with `|c - b| > 2³¹-1` (possible when `b - a` is large)
+    denotes a range in the manual's reading, while `delta_from_arg_vals` computes `c - b` in `int`
+    (signed overflow in C, wrapped in the model) and the checker rejects the text.
+  * the left neighbour of a range must not be an array in the proved class: the MODEL of the checker
+    re-skips the previous argument with the recursion bound of the CURRENT position
+    (`C11.ellipsisTail` is handed `skipNextPrintedArg fuel` with `fuel = |rest of the text| + 1`), so an
+    array nested deeper than the rest of the text is long runs out of fuel.  The C code has no such
+    bound: this is an artefact of the model (never reached by the generator: nesting ≤ 3). -/
+
+def nest : Nat → SVal → SVal
+  | 0, v => v
+  | k + 1, v => .arr [nest k v] false
+
+/-- `[[[[[[[[1]]]]]]]] 2...5` -/
+def exDeep : Sentence := [nest 8 (.val (.int 1 .dec false)), .range (.int 2 .dec false) (.int 5 .dec false)]
+
+/-- model artefact: the recursion bound of the checker's look-back at the left neighbour -/
+theorem deep_neighbour_model_fuel : Sentence.wf exDeep = true ∧ (cells exDeep).isSome = true ∧
+    C11.countPrintedArgVals (render exDeep L0) = .error .fuel ∧
+    C11.countPrintedArgVals (render [nest 3 (.val (.int 1 .dec false)), .range (.int 2 .dec false) (.int 5 .dec false)] L0) = .ok 7 := by
+  decide +kernel
+
+/-- `-2100000000 -1500000000...900000000` -/
+def exWide : Sentence := [.val (.int (-2100000000) .dec false), .range (.int (-1500000000) .dec false) (.int 900000000 .dec false)]
+
+/-- the full statement fails for a range whose width is not an `int32_t`: the specification denotes
+    five values, the checker rejects the text -/
+theorem wide_range_counterexample : Sentence.wf exWide = true ∧
+    cells exWide = some [.int .i (-2100000000), .rep 5 1, .int .i 600000000, .int .i (-1500000000)] ∧
+    hasOctalPlain exWide = false ∧ hasNumPercent exWide L0 = false ∧
+    C11.countPrintedArgVals (render exWide L0) = .ok (-2) := by
+  decide +kernel
 /-! ### instances of the full statement outside the proved class (evaluated, not general) -/
 
 /-- the decidable form of "the sentence denotes cells and its text is read as them" -/
